@@ -617,6 +617,13 @@ def p_snap(base, crs, p, q):
         off = abs(v - round(v))
         if off >= TOL or (moved != 0 and off != 0):
             bad.append(f"other is {v} pixels from the result: not a whole number (moved {moved})")
+    # the snapped GeoBox is on other's grid: the set operations must accept the pair
+    for name, fn in [("snapped | other", lambda: S | B), ("snapped & other", lambda: S & B),
+                     ("snapped.overlap_roi(other)", lambda: S.overlap_roi(B)), ("other.overlap_roi(snapped)", lambda: B.overlap_roi(S))]:
+        try:
+            fn()
+        except ValueError as e:
+            bad.append(f"{name} rejected after snapping: {e}")
     return (not bad), "; ".join(bad)
 
 
@@ -767,6 +774,24 @@ def search(out, tier):
                                                              [(F(1, 2), F(-1, 2)), (F(-7, 16), F(5, 32)), (F(1, 32), F(15, 32))])):
             out.count("search-escape:snap")
             continue
+        run("snap", list(base), rng.choice([0, None]), p, q)
+    # residual offsets of every magnitude between 1e-8 and 1/2 pixel (exactly representable): whole pixels + eps
+    eps_list = [F(k, 2 ** e) for e in (6, 10, 13, 17, 20, 23, 26) for k in (1, -1, 3)] + [F(1, 2) - F(1, 2 ** 20), F(-1, 2) + F(1, 2 ** 13)]
+    sub_bases = [b for b, nm in BB if abs(b[2]) <= 1000]
+    for i in range(len(eps_list) * (2 if tier == "quick" else 12)):
+        base = sub_bases[i % len(sub_bases)] if i >= len(eps_list) else sub_bases[(7 * i) % len(sub_bases)]
+        eps = eps_list[i % len(eps_list)]
+        p = [F(rng.randint(-4, 4)), dy(rng, -4, 4, 2)]
+        q = [p[0] + rng.randint(-3, 3) + eps, rng.choice([p[1] + rng.randint(-3, 3), p[1] + rng.randint(-3, 3) - eps, dy(rng, -4, 4, 3)])]
+        xa, xb = amul(base, atr(*p)), amul(base, atr(*q))
+        frac = lambda t: t - (t.numerator // t.denominator)
+        subs = [(frac(q[0] - p[0]) if frac(q[0] - p[0]) <= F(1, 2) else frac(q[0] - p[0]) - 1,
+                 frac(q[1] - p[1]) if frac(q[1] - p[1]) <= F(1, 2) else frac(q[1] - p[1]) - 1)]
+        if not (aff_floats_ok(xa) and aff_floats_ok(xb) and m_exact(xb, xa) and all(prod_exact(xa, atr(*sxy)) for sxy in subs)
+                and all(m_exact(xb, amul(xa, atr(*sxy))) and m_exact(amul(xa, atr(*sxy)), xb) for sxy in subs)):
+            out.count("search-escape:snap-subpixel")
+            continue
+        out.count("snap-subpixel")
         run("snap", list(base), rng.choice([0, None]), p, q)
     kt = int(TOL * 2 ** 44)
     k0 = int(ATOL * 2 ** 60)
